@@ -220,6 +220,11 @@ def c17(c):
         units.append(dict(name=nm, srcs=[D + "c17_arrayidx.cpp"], build="asan0", defs=EXC + ["CFG=vsbx_ilp32"],
                           flags=["-I" + os.path.join(c.bdir, "inc%d" % k)]))
         runs.append(dict(unit=nm, label=nm))
+    # an index that still lives in sandbox memory and is rewritten between RLBox's accesses (access-trap interleaver)
+    for b in ("plain0", "plain1"):
+        nm = "c17_idxtrap_" + b
+        units.append(dict(name=nm, srcs=[D + "c17_idxtrap.cpp"], build=b, defs=EXC))
+        runs.append(dict(unit=nm, label=nm))
     # optimised builds without a sanitizer: whole-array copies followed by element access (see the driver)
     for b in ("plain", "plain3", "clang-plain"):
         nm = "c17_opt_" + b.replace("-", "_")
@@ -482,6 +487,11 @@ def c14(c):
     runs = sliced("c14_lifecycle", ns, label="c14_exh2", args=[0], env=guest_env(c))
     runs += sliced("c14_lifecycle", ns, label="c14_exh3", args=[1], env=guest_env(c))
     runs += sliced("c14_lifecycle", 2 if not c.thorough else 5, label="c14_random", args=[2], env=guest_env(c))
+    # histories that begin before main(): sandboxes created by namespace-scope initialisers (model FINDER backend and noop)
+    for b in ("asan0", "plain") + (("clang-plain", "plain3") if c.thorough else ()):
+        nm = "c14_staticinit_" + b.replace("-", "_")
+        units.append(dict(name=nm, srcs=[D + "c14_staticinit.cpp"], build=b, defs=EXC))
+        runs.append(dict(unit=nm, label=nm))
     return dict(units=units, runs=runs, evidence=dict(
         level="exploration",
         rule="history = sequence over {create over library 1, create over library 2, create with injected failure, destroy, malloc, free, register, "
@@ -536,6 +546,11 @@ def c19(c):
         units.append(dict(name=nm, srcs=[D + "c19_transitions.cpp"], build="asan", defs=EXC + ["CFG=vsbx_ilp32"] + defs))
         runs.append(dict(unit=nm, label=nm + "[model]", args=[0], count_distinct=(tag == "all")))
         runs.append(dict(unit=nm, label=nm + "[noop]", args=[1], count_distinct=(tag == "all")))
+    # a guest ABI WIDER than the host's (int of 64 bits): there the conversion of a callback's ARGUMENTS can abort
+    for tag, defs in (cfgs if c.thorough else cfgs[:2]):
+        nm = "c19w_" + tag
+        units.append(dict(name=nm, srcs=[D + "c19_transitions.cpp"], build="asan", defs=EXC + ["CFG=vsbx_wide"] + defs))
+        runs.append(dict(unit=nm, label=nm + "[model-wide]", args=[0], count_distinct=(tag == "all")))
     return dict(units=units, runs=runs, evidence=dict(
         level="fault_enumeration",
         rule="case = (random call tree of nested invocations and callbacks over two live sandboxes with distinct transition states, depth <= 3 quick / 5 "
@@ -577,6 +592,16 @@ def c08(c):
             nm = "c08_%s_%d" % (cfg, t)
             forms = [(k, '#include "s%d.hpp"' % k) for k in range(t, nstruct, ntu)]
             units.append(dict(name=nm, kind="forms", must_compile=True, build="asan0", defs=EXC + ["CFG=vsbx_" + cfg], flags=["-I" + os.path.join(c.bdir, "gen")], preamble=pre, forms=forms,
+                              aliases={k: ["/s%d.hpp:" % k, "S%d," % k, "S%d]" % k, "S%d>" % k, "S%d;" % k] for k, _ in forms}))
+            runs.append(dict(unit=nm, label=nm))
+    # the same struct families once more in an optimised build without sanitizer (g++ -O3): whole-struct copies go through class-typed
+    # views of the image, exactly what type-based alias analysis may reorder or drop (cf. the array defect repaired by 423227a)
+    nopt = 2 if not c.thorough else 6
+    for cfg in (["ilp32"] if not c.thorough else cfgs):
+        for t in range(nopt):
+            nm = "c08_%s_o3_%d" % (cfg, t)
+            forms = [(k, '#include "s%d.hpp"' % k) for k in range(t, nstruct, nopt)]
+            units.append(dict(name=nm, kind="forms", must_compile=True, build="plain3", defs=EXC + ["CFG=vsbx_" + cfg], flags=["-I" + os.path.join(c.bdir, "gen")], preamble=pre, forms=forms,
                               aliases={k: ["/s%d.hpp:" % k, "S%d," % k, "S%d]" % k, "S%d>" % k, "S%d;" % k] for k, _ in forms}))
             runs.append(dict(unit=nm, label=nm))
     return dict(units=units, runs=runs, pre=[gen], evidence=dict(
@@ -772,6 +797,28 @@ def c01(c):
 @plan("C02")
 def c02(c):
     units, runs, n = forms_plan(c, "C02")
+    # what travels with a by-value struct image (padding): -O0, -O1 (both with ASan+UBSan) and -O2 plain, because where stack residue
+    # lands depends on the frame layout
+    for b in ("asan0", "asan", "plain") + (("plain3", "clang-plain") if c.thorough else ()):
+        nm = "c02_padding_" + b.replace("-", "_")
+        units.append(dict(name=nm, srcs=[D + "c02_padding.cpp"], build=b, defs=EXC))
+        runs.append(dict(unit=nm, label=nm))
+    # forms that need a backend whose pointer representation is as wide as the host's (WIDE model): a callback registered with
+    # ANOTHER sandbox type (noop: its representation is the address of an application trampoline) into function-pointer cells
+    mpre = ('#include "miniforms.hpp"\n#include "rlbox_noop_sandbox.hpp"\nusing namespace rlbox;\n'
+            'namespace c02w { using NS = rlbox_noop_sandbox; inline rlbox_sandbox<NS>& nsb() { static rlbox_sandbox<NS>* s = [] { auto* p = new rlbox_sandbox<NS>; p->create_sandbox(); return p; }(); return *s; }\n'
+            '  inline tainted<int, NS> ncb(rlbox_sandbox<NS>&, tainted<int, NS> x) { return x; }\n'
+            '  inline tainted<int, mf::S> ocb(rlbox_sandbox<mf::S>&, tainted<int, mf::S> x) { return x; }\n'
+            '  using fn_t = int (*)(int); }\n'
+            'int main(int c, char** v) { return mf::run_all(c, v); }\n')
+    c02w = [
+        (1, 'FORM(1, "f", "store volatile<fnp> = sandbox_callback of another sandbox type") { auto cb = c02w::nsb().register_callback(c02w::ncb); auto p = mf::Wd::tptr<c02w::fn_t>(e.sb, 512); *p = cb; }'),
+        (2, 'FORM(2, "f", "store fnp[2] element = sandbox_callback of another sandbox type") { auto cb = c02w::nsb().register_callback(c02w::ncb); auto p = mf::Wd::tptr<c02w::fn_t[2]>(e.sb, 512); (*p)[1] = cb; }'),
+        (3, 'FORM(3, "f", "invoke(guest_fn-like, sandbox_callback of another sandbox type)") { auto cb = c02w::nsb().register_callback(c02w::ncb); mf::Wd::invoke<int(c02w::fn_t)>(e.sb, "guest_fn", cb); }'),
+        (4, 'FORM(4, "g", "store volatile<fnp> = own sandbox_callback (control)") { auto cb = e.sb.register_callback(c02w::ocb); auto p = mf::Wd::tptr<c02w::fn_t>(e.sb, 512); *p = cb; }'),
+    ]
+    units.append(dict(name="c02_forms_wide", kind="forms", build="asan0", defs=EXC + ['MF_PROP="C02"', "MF_CFG=vsbx_wide", "RLBOX_USE_STATIC_CALLS()=rlbox_noop_sandbox_lookup_symbol"], preamble=mpre, forms=c02w))
+    runs.append(dict(unit="c02_forms_wide", label="c02_forms[wide]"))
     # the function-pointer instantiation of the entry-point sweep lives in a generated form: a run in which it was not driven is inconclusive
     return dict(units=units, runs=runs, require=["entry-point-sweep-with-function-pointers"], evidence=dict(
         level="exploration",
